@@ -163,7 +163,9 @@ CHECKS = {
         'an earlier sibling sub-circuit that adds no scope is visible, a scoped sibling and the other iterations of a loop are not: C12_enclosing_visible, '
         'C12_unscoped_sibling_visible, C12_scoped_sibling_not_visible, C12_other_iteration_not_visible, C12_same_body_visible); the terminal-measurement queries on the flat '
         'form (Model/C12Terminal) for a body repeated n >= 2 times answer as for two repetitions, and a body repeated zero times does not count '
-        '(C12_all_terminal_two_repetitions, C12_any_terminal_two_repetitions, C12_terminal_zero_repetitions). T2: generated nestings (depth 0..3) are built as real '
+        '(C12_all_terminal_two_repetitions, C12_any_terminal_two_repetitions, C12_terminal_zero_repetitions), instantiated with the unrolling specification: for a circuit '
+        'containing a sub-circuit operation, r + 2 repetitions answer as two (C12_loop_terminal_two_repetitions; the justification of the cap in the repaired '
+        'Circuit.are_all_matches_terminal). T2: generated nestings (depth 0..3) are built as real '
         'CircuitOperations; unroll_circuit_op(deep=True) must equal the specified flat list (ids, qubits, full keys, bound condition keys, '
         'inversion and order); key / qubit queries of the wrapped circuit equal those of the unrolled one; its unitary and its exact joint '
         'record distribution (all simulator branches enumerated) equal those of the specified unrolled circuit run by the Lean interpreter.',
